@@ -117,6 +117,72 @@ where
     Ok(())
 }
 
+/// Copy laws: a copy of a fresh provider is a fresh provider of the same table, however the copy
+/// is made — `clone()`, or `clone_from` / `clone_into` / `Option::clone_from` into a handle that
+/// was used before (a long-lived provider refreshed in place from a newly loaded one): whatever
+/// state the old handle was in, afterwards it lists, forwards and backwards, what the source lists.
+pub fn copy_laws<I>(fresh: &I, what: &str) -> Result<(), String>
+where
+    I: DoubleEndedIterator<Item = LeapSecond> + Clone + Default,
+{
+    let base: Vec<LeapSecond> = fresh.clone().collect();
+    let back: Vec<LeapSecond> = fresh.clone().rev().collect();
+    let n = base.len();
+    // the states a handle may be in before it is refreshed
+    let used = |k: usize| -> I {
+        let mut h = match k {
+            0 => I::default(),
+            _ => fresh.clone(),
+        };
+        let steps = match k {
+            0 => 0,
+            1 => 1,
+            2 => 3,
+            3 => n / 2,
+            _ => n + 1, // walked to the end (the call that returns None included)
+        };
+        for _ in 0..steps {
+            let _ = h.next();
+        }
+        h
+    };
+    for k in 0..5 {
+        let how = ["a default provider", "a handle advanced by 1", "a handle advanced by 3", "a handle advanced half-way", "an exhausted handle"][k];
+        let mut a = used(k);
+        a.clone_from(fresh);
+        if a.collect::<Vec<_>>() != base {
+            return Err(format!("{what}: {how} refreshed with clone_from(&fresh) does not list what the fresh provider lists"));
+        }
+        let mut b = used(k);
+        b.clone_from(fresh);
+        if b.rev().collect::<Vec<_>>() != back {
+            return Err(format!("{what}: {how} refreshed with clone_from(&fresh), walked backwards, does not list what the fresh provider lists backwards"));
+        }
+        let mut c = used(k);
+        fresh.clone_into(&mut c);
+        if c.rev().collect::<Vec<_>>() != back {
+            return Err(format!("{what}: {how} refreshed with clone_into, walked backwards, differs from the fresh provider"));
+        }
+        let mut o: Option<I> = Some(used(k));
+        o.clone_from(&Some(fresh.clone()));
+        if o.map(|x| x.rev().collect::<Vec<_>>()) != Some(back.clone()) {
+            return Err(format!("{what}: Some({how}) refreshed with Option::clone_from differs from the fresh provider"));
+        }
+        let mut v: Vec<I> = vec![used(k), used((k + 1) % 5)];
+        v.clone_from_slice(&[fresh.clone(), fresh.clone()]);
+        for x in v {
+            if x.rev().collect::<Vec<_>>() != back {
+                return Err(format!("{what}: used handles ({how} and the next state) refreshed with clone_from_slice differ from the fresh provider"));
+            }
+        }
+    }
+    let twice = fresh.clone().clone();
+    if twice.collect::<Vec<_>>() != base {
+        return Err(format!("{what}: a clone of a clone does not list what the provider lists"));
+    }
+    Ok(())
+}
+
 /// O1: the provider holds exactly `table`, seen through all three access paths.
 pub fn o1_table_equals(p: &LeapSecondsFile, table: &[Entry]) -> Result<(), String> {
     let fwd: Vec<LeapSecond> = p.clone().collect();
@@ -166,7 +232,8 @@ pub fn o1_table_equals(p: &LeapSecondsFile, table: &[Entry]) -> Result<(), Strin
             ));
         }
     }
-    iterator_laws(p, "file provider")
+    iterator_laws(p, "file provider")?;
+    copy_laws(p, "file provider")
 }
 
 #[derive(Default, Clone, Debug)]
@@ -329,6 +396,13 @@ pub fn run_query(
             probes.push(ts as i128 + d);
         }
     }
+    // ...the mirror images of entries about the reference epoch (-T: as long before 1900 as the
+    // entry lies after it), where a sign slip in a comparison shows: nothing is in force there...
+    for _ in 0..3 {
+        let src = if table.is_empty() || rng.chance(1, 2) { shipped } else { table };
+        let ts = rng.pick(src).0 as i128;
+        probes.push(-ts + rng.range(0, 2) as i128 - 1);
+    }
     probes.extend_from_slice(fixed);
     // In a seeded order: a lookup must not depend on which lookup came before it (an index hint,
     // a memo of the last answer). Now and then a SOFA-inclusive lookup is thrown in, unjudged.
@@ -396,6 +470,13 @@ pub fn full_sweep(
     for &t in fixed {
         probe_whole_second(p, table, same, t, stats, &mut log)?;
     }
+    // mirror images about the reference epoch
+    for &(ts, dat) in table.iter().chain(shipped.iter()) {
+        for d in [-1i128, 0, 1] {
+            probe_whole_second(p, table, same, -(ts as i128) + d, stats, &mut log)?;
+            probe_whole_second(p, table, same, -(ts as i128 + dat as i128) + d, stats, &mut log)?;
+        }
+    }
     for t in candidate_dates() {
         for d in [-1i128, 0, 1] {
             probe_whole_second(p, table, same, t + d, stats, &mut log)?;
@@ -408,6 +489,14 @@ pub fn full_sweep(
             for d in [-1_000_000i128, -500, -1, 1, 500, 1_000_000] {
                 let e = tai_epoch_ns(t + d);
                 differential(p, &e, &format!("TAI {ts} s {d:+} ns"), stats)?;
+                let e = tai_epoch_ns(-t + d);
+                differential(p, &e, &format!("TAI -{ts} s {d:+} ns"), stats)?;
+                if e.leap_seconds(true).is_some() || e.leap_seconds_with(true, p.clone()).is_some() {
+                    return Err(format!(
+                        "at TAI -{ts} s {d:+} ns (before 1900) a leap second offset is reported: {:?}",
+                        e.leap_seconds(true)
+                    ));
+                }
             }
             for off in [-40i128, -37, -10, -1, 0, 1, 10, 37, 40] {
                 for scale in [
@@ -503,6 +592,7 @@ pub fn o5_shipped_data_agree(shipped: &[Entry], naif: &[Entry]) -> Result<(), St
         }
     }
     iterator_laws(&LatestLeapSeconds::default(), "built-in provider")?;
+    copy_laws(&LatestLeapSeconds::default(), "built-in provider")?;
     // the 28 IERS entries, reached the way the pinned test reaches them: skipping the 14 others
     let skipped: Vec<LeapSecond> = LatestLeapSeconds::default().skip(builtin.len() - shipped.len()).collect();
     if skipped.len() != shipped.len()
@@ -904,6 +994,14 @@ pub fn conv_full_sweep(shipped: &[Entry], fixed: &[i128], known: Known, st: &mut
             utc.push(p + (t - p) / 4 * 3 + 999_999_999);
         }
         prev_t = Some(t);
+        // the mirror image of the entry about the reference epoch, and of the TAI count at which
+        // it takes effect: offset 0 there, to the nanosecond
+        for m in [-t, -(t + dat as i128 * NS_PER_S), -(t - dat as i128 * NS_PER_S)] {
+            for d in [-NS_PER_S, -1, 0, 1, NS_PER_S] {
+                utc.push(m + d);
+                tai.push(m + d);
+            }
+        }
         for k in -90i128..=90 {
             tai.push(t + k * NS_PER_S);
             tai.push(t + k * NS_PER_S + 500_000_000);
@@ -1020,6 +1118,7 @@ pub fn conv_light(shipped: &[Entry], probe_seed: u64, known: Known, st: &mut Con
     utc.push((lo + rng.below(2_000_000_000) as i128) * NS_PER_S + rng.below(NS_PER_S as u64) as i128);
     utc.push(rng.range(0, 2) as i128 * NS_PER_CENTURY - rng.range(0, 40) as i128 * NS_PER_S + rng.below(NS_PER_S as u64) as i128);
     utc.push((s0 + rng.below((s1 - s0) as u64) as i128) * NS_PER_S);
+    utc.push(-(rng.pick(shipped).0 as i128) * NS_PER_S + rng.range(0, 2) as i128 - 1);
     // seeded order: nothing may depend on what was converted before
     for i in (1..utc.len()).rev() {
         let j = rng.usize_below(i + 1);
